@@ -4,7 +4,10 @@ import (
 	"encoding/json"
 	"fmt"
 	"log/slog"
+	"os"
+	"os/exec"
 	"strings"
+	"time"
 
 	"github.com/goblimey/go-ntrip/rtcm/handler"
 	"github.com/goblimey/go-ntrip/rtcm/header"
@@ -27,6 +30,9 @@ var c20MSM7 = map[int]string{1077: "GPS", 1087: "Glonass", 1097: "Galileo", 1107
 var c20Names = map[string]bool{"GPS": true, "Glonass": true, "Galileo": true, "SBAS": true, "QZSS": true, "Beidou": true, "NavIC/IRNSS": true}
 
 type typeCase struct {
+	// NoTZ: not one type but the whole table of predicates, names and decoder families,
+	// in a process that has no time zone database (a container built from scratch)
+	NoTZ bool   `json:"without_time_zone_database,omitempty"`
 	Type int    `json:"type"`
 	Body string `json:"body"` // msm4 | msm7 | 1005 | 1006 | random
 	Hex  string `json:"payload_hex"`
@@ -397,6 +403,12 @@ func execC20Stream(c *child.Ctx, t int, r *ref.SplitMix64) {
 		if mm.MessageType == t {
 			sawT = true
 		}
+		// the type a delivered message is labelled with is the type its own bytes say
+		// (looked at now, after the whole stream has been read)
+		if mm.MessageType >= 0 && (!ref.IsFrame(mm.RawData) || ref.TypeOf(mm.RawData) != mm.MessageType) {
+			c.Violate("framing", fmt.Sprintf("in a stream, delivery %d is labelled type %d but, once the stream has been read, holds the bytes %s", i, mm.MessageType, clip(hexs(mm.RawData))), cj)
+			return
+		}
 		if i <= repeats && (mm.MessageType != mt || mm.Timestamp != ts || mm.SentAt == "" || mm.StartOfWeek == "") {
 			c.Violate("timestamp", fmt.Sprintf("in a stream, delivery %d of %d consecutive type %d messages with timestamp %d carries type %d, Timestamp=%d SentAt=%q StartOfWeek=%q",
 				i, repeats+1, mt, ts, mm.MessageType, mm.Timestamp, mm.SentAt, mm.StartOfWeek), cj)
@@ -415,18 +427,64 @@ func execC20Stream(c *child.Ctx, t int, r *ref.SplitMix64) {
 	c.Count("stream_classifications_checked", 1)
 }
 
+// execC20NoTZ runs in a process whose mount namespace has an empty /usr/share/zoneinfo
+// (see monC20).  Which types are MSM4 and MSM7, what their constellations are called
+// and which decoder accepts them has nothing to do with time zones.
+func execC20NoTZ(c *child.Ctx, cj []byte) {
+	if _, err := time.LoadLocation("Europe/Paris"); err == nil {
+		fmt.Println("WRAPPER-UNAVAILABLE the time zone database is still there")
+		return
+	}
+	for t := -2; t <= 4095; t++ {
+		_, is4 := c20MSM4[t]
+		_, is7 := c20MSM7[t]
+		func() {
+			defer func() {
+				if rr := recover(); rr != nil {
+					c.Violate("predicate", fmt.Sprintf("without a time zone database: classifying type %d panicked: %v", t, rr), cj)
+				}
+			}()
+			if utils.MSM4(t) != is4 || utils.MSM7(t) != is7 || utils.MSM(t) != (is4 || is7) {
+				c.Violate("predicate", fmt.Sprintf("in a process without a time zone database MSM4(%d)=%v MSM7(%d)=%v MSM(%d)=%v", t, utils.MSM4(t), t, utils.MSM7(t), t, utils.MSM(t)), cj)
+			}
+			name := utils.GetConstellation(t)
+			if is4 && name != c20MSM4[t] || is7 && name != c20MSM7[t] || !is4 && !is7 && c20Names[name] {
+				c.Violate("constellation", fmt.Sprintf("in a process without a time zone database GetConstellation(%d) = %q", t, name), cj)
+			}
+			if tc := utils.GetTitleAndComment(t); tc == nil || len(tc.Title) == 0 {
+				c.Violate("title", fmt.Sprintf("in a process without a time zone database type %d has no title", t), cj)
+			}
+		}()
+		if c.NViolations() > 0 {
+			return
+		}
+	}
+	c.Count("types_classified_without_a_time_zone_database", 4098)
+}
+
 func monC20(c *child.Ctx, replay json.RawMessage) {
 	r := ref.NewRand(c.Seed*295075147 + uint64(c.Batch)*314606869 + 20)
 	if replay != nil {
 		var k typeCase
 		json.Unmarshal(replay, &k)
 		c.Begin(replay)
+		if k.NoTZ {
+			if os.Getenv("VMON_SUBCASE") != "" {
+				execC20NoTZ(c, replay)
+			} else {
+				c20RunWithoutTZ(c)
+			}
+			return
+		}
 		for i := 0; i < 20; i++ {
 			execC20Type(c, k.Type, r, 8)
 			execC20Stream(c, k.Type, r)
 		}
 		c.Eval(1, true)
 		return
+	}
+	if c.Batch == 0 {
+		c20RunWithoutTZ(c)
 	}
 	extra := c.Pick(0, 64)
 	n := 0
@@ -446,5 +504,18 @@ func monC20(c *child.Ctx, replay json.RawMessage) {
 	c.SetExhaustive(true)
 	if c.Batch == 0 {
 		c.Sample(map[string]interface{}{"type": 1074, "bodies": []string{"msm4", "msm7", "1005", "1006", "random"}, "checks": "predicates, constellation, title, header family, decoder family, timestamp extraction, Analyse dispatch, display at both levels"})
+	}
+}
+
+// c20RunWithoutTZ re-runs the table of classifications in a process of this monitor
+// that is started in a mount namespace of its own with an empty file system mounted
+// over /usr/share/zoneinfo (unshare -m; needs the privilege to do so - if it is not
+// there the case is counted as unavailable, not as held).
+func c20RunWithoutTZ(c *child.Ctx) {
+	cj, _ := json.Marshal(typeCase{NoTZ: true})
+	wrapper := []string{"sh", "-c", `unshare -m true 2>/dev/null || { echo WRAPPER-UNAVAILABLE no mount namespace of our own; exit 0; }
+exec unshare -m sh -c 'mount -t tmpfs none /usr/share/zoneinfo 2>/dev/null || { echo WRAPPER-UNAVAILABLE cannot hide the time zone database; exit 0; }; unset ZONEINFO; exec "$0" "$@"' "$0" "$@"`}
+	if _, err := exec.LookPath("unshare"); err != nil || !runInSubProcess(c, wrapper, os.Args[0], cj, "the table of classifications in a process without a time zone database") {
+		c.Count("process_without_a_time_zone_database_unavailable", 1)
 	}
 }
